@@ -153,7 +153,9 @@ def validate_effect_table(qv, prog, h, max_steps=200000):
             continue
         ins = instrs[pc]
         need, dh, le, bad = abstract.effect(prog, ins)
-        if len(fb) != len(fa) or ins[0] in ("Call", "TailCall"):
+        if len(fb) != len(fa) or ins[0] in ("Call", "TailCall", "Select", "Spawn"):
+            # Select/Spawn complete in a later scheduler step (their net effect is only visible
+            # after the notification), Call/TailCall change the frame
             # frame change: only check that the callee's activation as a whole nets -1 later
             continue
         if fb[-1][0] != fid:
